@@ -304,3 +304,37 @@ Example C17_code_two_pass_example :
   snd (gen_perform_acl P [(lit "C", lit "Name", lit "Title")] [] rules) =
   [(nth 0 rules (Build_rule 0 [] []), [("aclFormula"%string, lit "Title"); ("aclFormulaParsed"%string, lit "Title")])].
 Proof. vm_compute. reflexivity. Qed.
+
+(* ------------------------------------------------------------------------------------------------- *)
+(* 8. predicate_formula.process_renames itself.  GristGen.ProcessRenames_gen.gen_process_renames is generated from
+   the source by harness/pr2v.py on every run (the try block and its handler, the loop that builds the patches, the
+   final Replacer); get_dollar_replacer, ast.parse, asttokens positions, map_back_patch and Replacer.get_text are
+   the oracles / model functions named in harness/pr2v.py PR_OPAQUE.  Bridge: for every renamer that looks at type,
+   name and extra only, the generated function is the model; the statements of sections 4 and 5 hold of it. *)
+Require Import GristGen.ProcessRenames_gen Grist.Proofs.ProcessRenames_bridge.
+
+Theorem C17_code_process_renames_bridge :
+  forall k (r : renamer) (rn : gent -> option str) (formula : str) (dollar_ok : bool) (dollars : list Z) (ast : option expr),
+  (forall e, rn (gent_of e) = r (e_type e) (e_name e) (e_extra e)) ->
+  match ast with Some e => wf_expr e = true | None => True end ->
+  gen_process_renames k rn formula (if dollar_ok then Some dollars else None) ast
+  = process_renames k r formula dollar_ok dollars ast.
+Proof. intros. apply gen_process_renames_bridge; assumption. Qed.
+
+Theorem C17_code_unparsable_untouched :
+  forall k (r : renamer) (rn : gent -> option str) (formula : str) (dollar_ok : bool) (dollars : list Z) (ast : option expr),
+  (forall e, rn (gent_of e) = r (e_type e) (e_name e) (e_extra e)) ->
+  match ast with Some e => wf_expr e = true | None => True end ->
+  unparsable dollar_ok ast ->
+  gen_process_renames k rn formula (if dollar_ok then Some dollars else None) ast = PRText formula.
+Proof.
+  intros k r rn formula dollar_ok dollars ast Hr Hwf Hu.
+  rewrite (gen_process_renames_bridge k r rn Hr formula dollar_ok dollars ast Hwf).
+  apply C17_unparsable_untouched. exact Hu.
+Qed.
+
+Example C17_code_process_renames_example :
+  let rn := fun g : gent => if str_eqb (g_name g) (lit "A") then Some (lit "Zed") else None in
+  gen_process_renames ACL rn (lit "$A == rec.A") (Some [0]) (Some ex17_ast) = PRText (lit "$Zed == rec.Zed") /\
+  gen_process_renames ACL rn (lit "rec.A ==") None None = PRText (lit "rec.A ==").
+Proof. vm_compute. split; reflexivity. Qed.
